@@ -125,12 +125,15 @@ def execute(sc):
     ret = fspec.get('ret', 'val')
     first_ok = {}
 
-    async def user_func(k):
+    def start(k):
         inv_counter[0] += 1
         i = inv_counter[0]
         loop = asyncio.get_running_loop()
         ctl.log('FuncStart', i=i, k=k, loop=loop.vname, c=_cur_call.get())
         ctl.point('func-start')
+        return i
+
+    async def body(i, k):
         try:
             d = durs.get(i, ddur)
             if d > 0:
@@ -152,6 +155,19 @@ def execute(sc):
         except asyncio.CancelledError:
             ctl.log('FuncEnd', i=i, how='cancel')
             raise
+
+    if fspec.get('form', 'async') == 'plain':
+        # a plain function returning an awaitable: a failing invocation of zero duration raises from the call
+        # itself (e.g. argument validation), before any awaitable exists
+        def user_func(k):
+            i = start(k)
+            if i in fail and durs.get(i, ddur) == 0:
+                ctl.log('FuncEnd', i=i, how='raise')
+                raise HExc(i)
+            return body(i, k)
+    else:
+        async def user_func(k):
+            return await body(start(k), k)
 
     mp = sc.get('mapping', 'dict')
     if mp == 'dict':
